@@ -152,6 +152,24 @@ CHECKS['C11'] = dict(
     technique='TLA+ Namer model (design-level invariant) + trace validation of recorded new_symbol calls + spec-driven differential replay',
     design_ref='DESIGN.md section 5 (C11)', engine='tlc-minipy')
 
+CHECKS['C15'] = dict(
+    text='Input-space specifications spec/SourceLayout.tla (a function definition as a sequence of physical lines: indentation '
+         'units, nesting contexts to depth 3, decorators, one-line / parenthesised / backslash headers, comments incl. trailing '
+         'backslash, blanks, continuation lines, plain/raw/bytes/f/rb strings over several lines with odd interior lines) and '
+         'spec/LambdaSelect.tla (1-3 lambdas: nesting, line breaks, spans, 9 parameter lists) are enumerated exhaustively by '
+         'TLC up to the stated bounds (all layouts with <=3 (quick) / 4 (thorough) deviations from the plain layout and <=5 '
+         'body lines). The specification itself produces the text, the logical statements with their physical spans, string '
+         'values and the reference dedent; every state is rendered into a really imported module and '
+         'parser.parse_entity(f) is compared with the node at co_firstlineno of ast.parse(module). For lambdas the recovered '
+         'expression must be the one that created the object, or an explicit unsupported error - never another lambda. '
+         'Failing cases are minimised inside the enumerated state space to name the failing layout feature.',
+    note='Trusted: CPython ast.parse/compile as the reference for what the interpreter compiled (the spec\'s logical lines, '
+         'string values and reference dedent are validated against it in the same run, exit 2 on disagreement). Found(i) is '
+         'required only where line span or parameter names identify the lambda. Fixed text inside lines; the infinite token '
+         'space is sampled by line kinds.',
+    technique='TLC-enumerated input space (physical-line layouts, lambda placements), every state replayed into parse_entity, model validated against CPython ast',
+    design_ref='DESIGN.md sections 3.6, 5 (C15); notes/C15.md', engine='tlc-sourcelayout')
+
 NOT_CLAIMED = {}
 
 
